@@ -33,12 +33,22 @@ func blobOf(s []value) *blob {
 	return nil
 }
 
-func (b *blob) lenValue() value { return symInt{b.lenT, types.Int} }
+func (b *blob) lenValue() value {
+	if b.lenT.IsConst() {
+		return int(b.lenT.Val.Int64())
+	}
+	return symInt{b.lenT, types.Int}
+}
 
 func (i *interpreter) newBlob(t types.Type, v value) []value {
 	x := i.x
 	x.uniq++
 	b := &blob{id: x.uniq, t: t, v: v}
+	if x.blobLen > 0 {
+		// relational harnesses: both runs see the same (nominal) sizes
+		b.lenT = sym.Int64(int64(x.blobLen))
+		return []value{b}
+	}
 	b.lenT = x.Var(fmt.Sprintf("bloblen#%d", b.id), sym.SInt, "bloblen")
 	x.addPC(sym.And(sym.Le(sym.Int64(2), b.lenT), sym.Le(b.lenT, sym.Int64(1<<20))))
 	return []value{b}
